@@ -115,6 +115,12 @@ class C15(Check):
     # asked for that variant: `Cfg.repairedWith fx`).  A repair that is present only in part, or written differently, is not recognised: the
     # model then expects the raise and the run reports the disagreement.
     FIX_MARKS = {
+        "K1": [("packet_base", "packet_base", r"MAX_NESTING\s*=\s*32\b"), ("packet_base", "packet_base._nesting", r"while\s+p\s+is\s+not\s+None\s*:"),
+               ("ethernet", "ethernet.parse_next", r"if\s+prev\s+is\s+not\s+None\s+and\s+prev\._nesting\(\)\s*\+\s*1\s*>=\s*packet_base\.MAX_NESTING\s*:\s*return\s+raw\[offset:\]"),
+               ("ipv4", "ipv4.parse", r"if\s+self\.frag\s*!=\s*0\s+or\s+self\._nesting\(\)\s*>=\s*self\.MAX_NESTING\s*:"),
+               ("ipv6", "ipv6.parse", r"if\s+self\._nesting\(\)\s*>=\s*self\.MAX_NESTING\s*:\s*self\.next\s*=\s*raw\[offset:offset\+length\]"),
+               ("gre", "gre.parse", r"ipv4\.ipv4\(raw=raw\[o:\],\s*prev=self\).*ethernet\(raw=raw\[o:\],\s*prev=self\)"),
+               ("vxlan", "vxlan.parse", r"ethernet\(raw=raw\[vxlan\.MIN_LEN:\],\s*prev=self\)")],
         "K5": [("icmpv6", "NDNeighborSolicitation.unpack_new", r"if\s+buf_len\s*-\s*offset\s*<\s*(4\s*\+\s*16|20)\s*:\s*raise\s+TruncatedException"),
                ("icmpv6", "NDNeighborAdvertisement.unpack_new", r"if\s+buf_len\s*-\s*offset\s*<\s*(4\s*\+\s*16|20)\s*:\s*raise\s+TruncatedException")],
         "K6": [("icmpv6", "_parse_ndp_options", r"%\s*8\s*!=\s*0\s*:\s*raise\s+TruncatedException")],
